@@ -136,3 +136,17 @@ pub fn trim_cr(l: &[u8]) -> &[u8] {
 pub fn lossy(b: &[u8]) -> String {
     String::from_utf8_lossy(b).into_owned()
 }
+
+/// A temporary file or directory of a check, removed when the value is dropped (also on an early return or a panic
+/// caught by the engine).
+pub struct TempPath(pub std::path::PathBuf);
+
+impl Drop for TempPath {
+    fn drop(&mut self) {
+        if self.0.is_dir() {
+            let _ = std::fs::remove_dir_all(&self.0);
+        } else {
+            let _ = std::fs::remove_file(&self.0);
+        }
+    }
+}
